@@ -58,6 +58,16 @@ def run(ctx):
                 res.ok("ne-default:" + tr_self, "", "`!=` is the negation of `==` (ne not overridden)")
             else:
                 res.bad("ne-default:" + tr_self, "impl PartialEq for %s overrides %s" % (tr_self, names), "%s:%s" % (ims[0]["file"], ims[0]["line"]))
+    # the Eq marker promises reflexivity; std uses it to compare Arc<T: Eq> by pointer first
+    for tr_self in ("variable::Variable", "variable::array::Array"):
+        eqs = [im for im in lib.impls if im.get("trait") == "std::cmp::Eq" and im.get("self_ty") == tr_self]
+        key = "eq-marker:" + tr_self
+        if eqs:
+            res.bad(key, "%s implements the Eq marker although it can hold a float: std then compares Arc-shared values (struct fields "
+                         "map, slices) by pointer first, so a value containing NaN equals itself in some containers and not in others"
+                    % tr_self, "%s:%s" % (eqs[0]["file"], eqs[0]["line"]))
+        else:
+            res.ok(key, "", "no Eq marker: element-wise IEEE comparison everywhere")
     for u, methods in USERS.items():
         b = lib.body(u)
         if not res.anchor(b is not None, u):
